@@ -804,7 +804,10 @@ impl<'c> Exec<'c> {
     }
 
     fn op_iterate<B: Brancher>(&mut self, b: &mut B, max: usize, interrupt: Option<u64>) -> V<()> {
-        let mut clock = FaultClock::new(interrupt, self.case.budget.saturating_mul(4));
+        // the step budget of an enumeration grows with the number of solutions it has to produce
+        // (each one is a solve of its own, on a longer clause database)
+        let wanted = (self.refm.sols.len().min(max) as u64).saturating_add(1);
+        let mut clock = FaultClock::new(interrupt, self.case.budget.saturating_mul(4).saturating_add(wanted.saturating_mul(5_000)));
         let mut got: Vec<Vec<i32>> = vec![];
         let mut finished = false;
         let mut unknown = false;
